@@ -146,10 +146,14 @@ macro_rules! sealed_float {
                         return FloatKind::NaN;
                     };
                 }
-                // if not subnormal, add implicit bit
-                if exp >= Self::EXP_MIN {
+                // if not subnormal, add implicit bit; subnormals have the
+                // scale of the smallest normal exponent
+                let exp = if exp >= Self::EXP_MIN {
                     mantissa |= 1 << (prec - 1);
-                }
+                    exp
+                } else {
+                    Self::EXP_MIN
+                };
                 if mantissa == 0 {
                     let conv = ToFixedHelper {
                         bits: Widest::Unsigned(0),
